@@ -409,6 +409,16 @@ var Progs = []Prog{
 		tm := time.AfterFunc(time.Hour, func() {})
 		return fmt.Sprint(n, tm.Stop())
 	}, []string{"3 true"}},
+	{"ctx-cause-bypasses-wrapper", func() string {
+		ctx, cancel := context.WithTimeoutCause(context.Background(), time.Millisecond, fmt.Errorf("too slow"))
+		defer cancel()
+		w := errWrapCtx{ctx}
+		<-w.Done()
+		child, cancel2 := context.WithCancel(w)
+		defer cancel2()
+		<-child.Done()
+		return fmt.Sprintf("%v | %v | %v | %v", w.Err(), context.Cause(w), child.Err(), context.Cause(child))
+	}, []string{"wrapped: context deadline exceeded | too slow | wrapped: context deadline exceeded | too slow"}},
 }
 
 // Names lists the program names.
@@ -421,3 +431,13 @@ func Names() []string {
 }
 
 var _ = join
+
+// errWrapCtx is a context wrapper that overrides Err (as the library's requestContext does).
+type errWrapCtx struct{ context.Context }
+
+func (c errWrapCtx) Err() error {
+	if e := c.Context.Err(); e != nil {
+		return fmt.Errorf("wrapped: %w", e)
+	}
+	return nil
+}
